@@ -117,6 +117,11 @@ class RequestManager(BaseModel):
         :type context: Dict
         :raises RuntimeError: If the request parameter does not have a valid request name as the first item.
         """
+        if not request:
+            msg = "Request could not be processed because it does not name a request within this RequestManager"
+            _LOGGER.debug(msg)
+            return RequestResponse(status="unreachable", data={"reason": msg})
+
         request_key = request[0]
         request_options = request[1:]
 
